@@ -291,7 +291,10 @@ def mass_properties(
     volume = integrated[0]
 
     if center_mass is None:
-        if np.abs(volume) < tol.zero:
+        # compare with the size of the summed terms rather than with an absolute
+        # number, so that a small body (or one modelled in large units) is not
+        # mistaken for an empty one
+        if np.abs(volume) <= tol.zero * np.abs(integral[0]).sum() / 6.0:
             # if there is no volume set center of mass to the origin
             center_mass = np.zeros(3, dtype=np.float64)
         else:
